@@ -36,13 +36,13 @@ type Scenario struct {
 type Obs struct {
 	Exit          int      `json:"exit"`
 	TimedOut      bool     `json:"timedout"`
-	Stdout        bool     `json:"stdout"`    // anything written to stdout
-	StdoutGo      bool     `json:"stdoutgo"`  // stdout parses as a Go file
-	Stderr        bool     `json:"stderr"`    // anything written to stderr
-	Panic         bool     `json:"panic"`     // stderr shows a Go panic / fatal error
-	Created       []string `json:"created"`   // files and directories that exist afterwards but not before
-	Modified      []string `json:"modified"`  // files whose content changed
-	OutputsOK     int      `json:"outputsok"` // expected output files that exist and parse as Go
+	Stdout        bool     `json:"stdout"`       // anything written to stdout
+	StdoutGo      bool     `json:"stdoutgo"`     // stdout parses as a Go file
+	Stderr        bool     `json:"stderr"`       // anything written to stderr
+	Panic         bool     `json:"panic"`        // stderr shows a Go panic / fatal error
+	Created       []string `json:"created"`      // files and directories that exist afterwards but not before
+	Modified      []string `json:"modified"`     // files whose content changed
+	OutputsOK     int      `json:"outputsok"`    // expected output files that exist and parse as Go
 	OutputsThere  int      `json:"outputsthere"` // expected output files that exist, are not the sentinel and are not empty
 	OutputsWanted int      `json:"outputswanted"`
 	StderrText    string   `json:"-"`
